@@ -355,7 +355,7 @@ def main():
     checked = n = muts = 0
     for it, (st, val) in list(zip(items, results)) + list(zip(ls, results2)):
         if st != "ok":
-            run.inconc(f"{it}: job {st} {str(val)[:300] if val else ''}")
+            run.job_failed(it, st, val)
             continue
         run.add_stats(val["stats"])
         checked += val["checked"]
